@@ -140,6 +140,127 @@ fn protocol<T, I>(
     }
 }
 
+/// Histories that use the other `Iterator` entry points an implementation may override:
+/// `next^j . nth(k) . len . next . len` for j and k on their boundaries (0, 1, last, one and two
+/// past the end), `size_hint` against `len`, and the consuming `count()` and `last()` after j items.
+/// `mk` builds a fresh iterator for every history.
+fn protocol_adaptors<T, I>(
+    name: &str,
+    mk: impl Fn() -> I,
+    expect: &[T],
+    same: impl Fn(&I::Item, &T) -> bool,
+    res: &mut ShapeResult,
+    shape: &[usize],
+    ctx: &J,
+) where
+    I: ExactSizeIterator,
+    T: std::fmt::Debug,
+    I::Item: std::fmt::Debug,
+{
+    let total = expect.len();
+    let mut js: Vec<usize> = vec![0, 1, total.saturating_sub(1), total, total + 1];
+    js.sort();
+    js.dedup();
+    for &j in &js {
+        let rest = total.saturating_sub(j);
+        let mut ks: Vec<usize> = vec![0, 1, rest.saturating_sub(1), rest, rest + 1, rest + 2];
+        ks.sort();
+        ks.dedup();
+        for &k in &ks {
+            res.states += 1;
+            res.transitions += j as u64 + 5;
+            let r = catch(|| {
+                let mut it = mk();
+                for _ in 0..j {
+                    it.next();
+                }
+                let got = it.nth(k);
+                let at = j + k; // position of the item nth(k) must return
+                let ok_item = match (&got, expect.get(at)) {
+                    (Some(x), Some(e)) => same(x, e),
+                    (None, None) => true,
+                    _ => false,
+                };
+                if !ok_item {
+                    return Err(format!("after {j} next() calls nth({k}) returned {got:?}, expected item {at}: {:?}", expect.get(at)));
+                }
+                let remaining = total.saturating_sub(at + 1);
+                let l = it.len();
+                if l != remaining {
+                    return Err(format!("after {j} next() calls and nth({k}), len()={l} but {remaining} items remain"));
+                }
+                let (lo, hi) = it.size_hint();
+                if lo != remaining || hi != Some(remaining) {
+                    return Err(format!("after {j} next() calls and nth({k}), size_hint()=({lo},{hi:?}) but {remaining} items remain"));
+                }
+                let nx = it.next();
+                let ok_next = match (&nx, expect.get(at + 1)) {
+                    (Some(x), Some(e)) => same(x, e),
+                    (None, None) => true,
+                    _ => false,
+                };
+                if !ok_next {
+                    return Err(format!("after {j} next() calls and nth({k}), next() returned {nx:?}, expected item {}: {:?}", at + 1, expect.get(at + 1)));
+                }
+                let remaining = total.saturating_sub(at + 2);
+                let l = it.len();
+                if l != remaining {
+                    return Err(format!("after {j} next() calls, nth({k}) and next(), len()={l} but {remaining} items remain"));
+                }
+                Ok(())
+            });
+            match r {
+                Ok(Ok(())) => {}
+                Ok(Err(why)) => {
+                    res.v(shape, &format!("{name}-nth-protocol-wrong|{}", if j + k >= total { "past-end" } else { "within" }), format!("{name} on shape {shape:?}: {why}"), ctx.clone());
+                    return;
+                }
+                Err(p) => {
+                    res.v(shape, &format!("{name}-nth-protocol-panic|{}|{}", if j + k >= total { "past-end" } else { "within" }, panic_class(&p)), format!("{name} on shape {shape:?}: history next^{j}.nth({k}).len.next.len panicked: {p}"), ctx.clone());
+                    return;
+                }
+            }
+        }
+        // consuming adaptors after j items
+        res.transitions += 2;
+        let r = catch(|| {
+            let mut it = mk();
+            for _ in 0..j {
+                it.next();
+            }
+            let c = it.count();
+            if c != rest {
+                return Err(format!("after {j} next() calls count()={c}, but {rest} items remain"));
+            }
+            let mut it = mk();
+            for _ in 0..j {
+                it.next();
+            }
+            let l = it.last();
+            let ok = match (&l, if rest > 0 { expect.last() } else { None }) {
+                (Some(x), Some(e)) => same(x, e),
+                (None, None) => true,
+                _ => false,
+            };
+            if !ok {
+                return Err(format!("after {j} next() calls last() returned {l:?}, expected {:?}", if rest > 0 { expect.last() } else { None }));
+            }
+            Ok(())
+        });
+        match r {
+            Ok(Ok(())) => {}
+            Ok(Err(why)) => {
+                res.v(shape, &format!("{name}-count-last-wrong"), format!("{name} on shape {shape:?}: {why}"), ctx.clone());
+                return;
+            }
+            Err(p) => {
+                res.v(shape, &format!("{name}-count-last-panic|{}", panic_class(&p)), format!("{name} on shape {shape:?}: count()/last() after {j} next() calls panicked: {p}"), ctx.clone());
+                return;
+            }
+        }
+    }
+}
+
 fn check_shape(shape: &[usize]) -> ShapeResult {
     let mut res = ShapeResult::default();
     let d = shape.len();
@@ -159,6 +280,7 @@ fn check_shape(shape: &[usize]) -> ShapeResult {
         shape,
         &J::s("iter_indices"),
     );
+    protocol_adaptors("indices_iter", || arr.iter_indices(), &all_idx, |a, b| a == b, &mut res, shape, &J::s("iter_indices"));
     for (flat, idx) in all_idx.iter().enumerate() {
         res.evals += 1;
         match catch(|| arr.get(idx).copied()) {
@@ -271,6 +393,7 @@ fn check_shape(shape: &[usize]) -> ShapeResult {
             }
             let name = if d == 1 { "view_iter-0dim" } else { "view_iter" };
             protocol(name, view.iter(), &expect, |x, y| **x == *y, &mut res, shape, &ctx);
+            protocol_adaptors(name, || view.iter(), &expect, |x, y| **x == *y, &mut res, shape, &ctx);
             // to_array
             res.evals += 1;
             match catch(|| {
@@ -308,6 +431,14 @@ fn check_shape(shape: &[usize]) -> ShapeResult {
         res.evals += 1;
         let expect: Vec<usize> = (0..shape[a]).collect();
         let ctx = J::obj([("axis", J::u(a))]);
+        let same_view = |view: &sfs_core::array::view::View<'_, f64>, pos: &usize| {
+            let pos = *pos;
+            let mut idx = vec![0usize; d];
+            idx[a] = pos;
+            let first = reference.get(&idx);
+            d == 1 || view.iter().next().copied() == Some(first)
+        };
+        protocol_adaptors("axis_iter", || arr.iter_axis(Axis(a)), &expect, same_view, &mut res, shape, &ctx);
         protocol(
             "axis_iter",
             arr.iter_axis(Axis(a)),
@@ -342,6 +473,15 @@ fn check_shape(shape: &[usize]) -> ShapeResult {
                     .collect()
             })
             .collect();
+        protocol_adaptors(
+            "frequencies_iter",
+            || scs.iter_frequencies(),
+            &expect,
+            |a: &Vec<f64>, b: &Vec<f64>| a.len() == b.len() && a.iter().zip(b).all(|(x, y)| (x.is_nan() && y.is_nan()) || x == y),
+            &mut res,
+            shape,
+            &J::s("iter_frequencies"),
+        );
         protocol(
             "frequencies_iter",
             scs.iter_frequencies(),
@@ -405,7 +545,7 @@ pub fn run(tier: Tier) -> i32 {
         }
     }
     rep.rule = format!(
-        "all shapes with 1..{max_d} axes and lengths 1..{max_len} (thorough: plus 1..4 axes with lengths up to 8; {} shapes in total), array filled with its flat position; per shape: every index of the box [0..len+1]^d, every (axis 0..d+1, position 0..len+1), every iterator stepped through all histories next^j.len.next.. continued {PAST_END} calls past exhaustion; non-trivial = a view of a >=3-axis array or an iterator history continued past exhaustion (counted per iterator instance)",
+        "all shapes with 1..{max_d} axes and lengths 1..{max_len} (thorough: plus 1..4 axes with lengths up to 8; {} shapes in total), array filled with its flat position; per shape: every index of the box [0..len+1]^d, every (axis 0..d+1, position 0..len+1), every iterator stepped through all histories next^j.len.next.. continued {PAST_END} calls past exhaustion, and through the histories next^j.nth(k).len.size_hint.next.len, next^j.count, next^j.last for j and k on their boundaries (0, 1, last, one and two past the end); non-trivial = a view of a >=3-axis array or an iterator history continued past exhaustion (counted per iterator instance)",
         shp.len()
     );
     let results = par_each(&shp, |s| check_shape(s));
